@@ -18,7 +18,7 @@ def run(chk):
     if not only or "proof" in only:
         chk.guard(C02.kernel_obligations)
         from contracts import indexed
-        chk.guard(indexed.obligations, chk.prop)
+        chk.guard(indexed.obligations, chk.prop, fallback=[indexed._replay])
         chk.discharge()
     chk.assume("@njit kernels verified as their undecorated Python bodies; float64 treated as the reals (re-association exact)")
     chk.assume("lemma (not machine-checked): with the kernel contracts, lnL is a sum over unique columns of multiplicity * log "
